@@ -58,6 +58,10 @@ struct CappedAllocator : ArduinoJson::Allocator {
   std::vector<std::string> errors;
   uint64_t nAlloc = 0, nRealloc = 0, nFree = 0, refused = 0;
   static constexpr size_t kCap = 1u << 20;
+  // every fresh byte handed to the library is set to `fill`, which the harness makes different for every input kind:
+  // a result that depends on uninitialised memory (e.g. a string whose bytes were never read from the input) then
+  // differs between kinds and is caught by the source-independence clause instead of passing by luck
+  unsigned char fill = 0;
 
   ~CappedAllocator() { for (auto& b : live) free(b.p); }
   void resetCounters() { nAlloc = nRealloc = nFree = 0; }
@@ -70,6 +74,7 @@ struct CappedAllocator : ArduinoJson::Allocator {
     nAlloc++;
     if (n > kCap) { refused++; return nullptr; }
     void* p = malloc(n ? n : 1);
+    memset(p, fill, n);
     live.push_back({p, n});
     return p;
   }
@@ -99,6 +104,7 @@ struct CappedAllocator : ArduinoJson::Allocator {
     }
     if (n > kCap) { refused++; return nullptr; }  // like realloc: the old block stays valid
     void* q = malloc(n ? n : 1);
+    if (n > old) memset(static_cast<char*>(q) + old, fill, n - old);
     if (p) {
       memcpy(q, p, old < n ? old : n);
       free(p);
@@ -309,7 +315,12 @@ inline const char* codeName(int c) {
 inline void runOne(Env& E, Input& I, int kind, bool onZt, int li, int fi, Result& R, std::string& problems) {
   CappedAllocator& A = E.A;
   A.resetCounters();
+  A.fill = static_cast<unsigned char>(0xA0 + kind);
   E.runs++;
+  if (E.C.verbose) {  // replay: the last RUN line before a sanitizer report names the (kind, limit, filter)
+    printf("RUN kind=%s%s|limit=%d|filter=%s\n", kKindName[kind], onZt ? "(bytes up to the first NUL)" : "", kLimits[li], kFilterText[fi]);
+    fflush(stdout);
+  }
   {
     JsonDocument doc(&A);
     DeserializationError err = invoke(E, I, kind, onZt, doc, li, fi, R.consumed);
@@ -657,10 +668,16 @@ inline void run(Ctx& C) {
     uint64_t tick = 0;
     for (;;) {
       if ((++tick & 63) == 0 && expired(section)) return;
-      if (C.take()) {
+      if (shape == RAM) {
+        if (C.take()) {
+          text.clear();
+          for (int k : idx) text.push_back(kAlpha[k]);
+          V.eval(false, text, shape);
+        }
+      } else {  // sharded by content: an input that is generated twice (corpus mutation = enumerated string) lands in one shard
         text.clear();
         for (int k : idx) text.push_back(kAlpha[k]);
-        V.eval(false, text, shape);
+        if (C.takeByHash(fnv1a(text))) V.eval(false, text, shape);
       }
       int k = len - 1;
       while (k >= 0 && ++idx[size_t(k)] == NA) idx[size_t(k--)] = 0;
@@ -673,10 +690,11 @@ inline void run(Ctx& C) {
       if ((++tick & 63) == 0 && expired(section)) return;
       for (int pos = 0; pos < len; pos++) {
         for (int special = 0; special < 2; special++) {
-          if (!C.take()) continue;
+          if (shape == RAM && !C.take()) continue;
           text.clear();
           for (int k : idx) text.push_back(kAlpha[k]);
           text.insert(text.begin() + pos, special ? char(0xff) : char(0));
+          if (shape != RAM && !C.takeByHash(fnv1a(text))) continue;
           V.eval(false, text, shape);
         }
       }
@@ -702,9 +720,10 @@ inline void run(Ctx& C) {
         }
       }
       if ((v & 255) == 0 && expired(section)) return;
-      if (!C.take()) continue;
+      if (shape == RAM && !C.take()) continue;
       b.clear();
       for (int i = len - 1; i >= 0; i--) b.push_back(char((v >> (8 * i)) & 255));
+      if (shape != RAM && !C.takeByHash(fnv1a(b) ^ 0x9e3779b97f4a7c15ULL)) continue;
       V.eval(true, b, shape);
     }
   };
@@ -713,19 +732,28 @@ inline void run(Ctx& C) {
   auto corpusItem = [&](const CorpusItem& it, Shape shape, const char* section) {
     if (expired(section)) return;
     V.countOnly = false;
-    if (C.take()) V.eval(it.mp, it.bytes, shape);
+    const uint64_t salt = it.mp ? 0x9e3779b97f4a7c15ULL : 0;  // the same bytes as JSON and as MessagePack are two inputs
+    auto mine = [&](const std::string& x) { return shape == RAM ? C.take() : C.takeByHash(fnv1a(x) ^ salt); };
+    if (mine(it.bytes)) V.eval(it.mp, it.bytes, shape);
     std::string m;
     for (size_t p = 0; p < it.bytes.size(); p++) {
       if (expired(section)) return;
-      if (C.take()) V.eval(it.mp, it.bytes.substr(0, p), shape);
+      m = it.bytes.substr(0, p);
+      if (mine(m)) V.eval(it.mp, m, shape);
     }
     for (size_t p = 0; p < it.bytes.size(); p++) {
       for (int v = 0; v < 256; v++) {
         if ((unsigned char)it.bytes[p] == v) continue;
         if ((v & 31) == 0 && expired(section)) return;
-        if (!C.take()) continue;
-        m = it.bytes;
-        m[p] = char(v);
+        if (shape == RAM) {
+          if (!C.take()) continue;
+          m = it.bytes;
+          m[p] = char(v);
+        } else {
+          m = it.bytes;
+          m[p] = char(v);
+          if (!C.takeByHash(fnv1a(m) ^ salt)) continue;
+        }
         V.eval(it.mp, m, shape);
       }
     }
